@@ -751,6 +751,8 @@ func glType(e ast.Expr) string {
 		return "UInt8"
 	case "uint32":
 		return "UInt32"
+	case "uint64":
+		return "UInt64"
 	case "bool":
 		return "Bool"
 	case "string", "[]byte":
@@ -775,7 +777,7 @@ func glTextType(e ast.Expr) string {
 
 func glZero(ty string) string {
 	switch ty {
-	case "Int", "UInt8", "UInt32":
+	case "Int", "UInt8", "UInt32", "UInt64":
 		return "0"
 	case "Bool":
 		return "false"
@@ -2507,6 +2509,16 @@ func extractGoLean() {
 					"node.info = info":                     "root := Glb.Go.LibRouter.setInfoAt root keys id",
 					"node.paramNameList = paramNameList":   "root := Glb.Go.LibRouter.setParamsAt root keys paramNameList",
 				}},
+		},
+	})
+
+	// TrIoutil (supporting code): ReadRand; the random source is the list of its successive Uint64 draws
+	glTranslate(glUnit{
+		Module: "TrIoutil", NS: "Glb.Tr.Ioutil",
+		Funcs: []glFunc{
+			{File: "util/ioutil/ioutil.go", Name: "ReadRand", Args: "(draws : List UInt64) (buf : Bytes)", Ret: "(Bytes × List UInt64 × Int × Bool)",
+				Ptr: map[string]bool{"buf": true}, Thread: []string{"draws"}, Env: map[string]string{"nil": "false"},
+				Rewrite: map[string]string{"val = r.Uint64()": "val := draws.headD 0\ndraws := draws.tail"}},
 		},
 	})
 }
